@@ -95,6 +95,10 @@ class Model:
             if attr == "name" and isinstance(v.name, str):
                 return v.name
             return ("method", v, attr)
+        if isinstance(v, Columns):
+            if attr in ("values", "array"):
+                return v
+            return ("method", v, attr)
         if isinstance(v, GroupBy):
             if attr in self.ops.GB_METHODS:
                 return ("method", v, attr)
@@ -168,6 +172,17 @@ class Model:
         return None
 
     def frame_set_attr(self, f: Frame, attr: str, v: Any, node) -> None:
+        if attr == "columns" and isinstance(v, list) and all(isinstance(x, str) for x in v) and f.colnames() is not None and len(v) == len(f.colnames()):
+            old = f.colnames()
+            self.mutating(f, node, "set-columns", mapping=dict(zip(old, v)))
+            terms = [f.col(c) for c in old]
+            f.cols = {}
+            f.dropped = set()
+            f.known = []
+            f.resolver = None
+            for n, t in zip(v, terms):
+                f.setcol(n, t)
+            return
         if attr == "columns":
             self.mutating(f, node, "set-columns")
             f.cols = {k: T.opaque("columns reassigned") for k in f.cols}
